@@ -17,9 +17,8 @@ fragment (`IntLiteral`, bare Python ints, scalar variables, `Sum`, `Product`):
 * `cmpZero` — Python's `op(node, 0)` on the final node, from the generated table `Tables.otherCmp`.
 
 Loops are structural or use fuel (`none` = fuel exhausted / an `IndexError` path = the call raises).
-`separate_coefficients._process` looks only at `children[1]` of a minus-prefixed factor; when that drops factors the
-model stops with `none` (never reached after `flatten_expr`; correspondence would expose it).
-Quotients, powers, floats are outside the fragment (treated as opaque leaves).  Core Lean only.
+Quotients, powers, floats are outside the fragment of `symbolicOp` (treated as opaque leaves); `distribute_quotient` is
+modelled on its own in `LokiModel/C09/Quot.lean`.  Core Lean only.
 -/
 namespace LokiModel.C09
 open LokiModel.Expr LokiModel.C06
@@ -34,12 +33,13 @@ deriving Repr, DecidableEq, Inhabited
 def lower (s : String) : String := String.ofList (s.toList.map Char.toLower)
 
 mutual
-/-- `bool(node)`: `IntLiteral.__bool__`, `Sum.__bool__`, `Product.__bool__`, default `True` -/
+/-- `bool(node)`: `IntLiteral.__bool__`, `Sum.__bool__`, `Product.__bool__`, `QuotientBase.__bool__`, default `True` -/
 def truthy : E → Bool
   | .ilit n => n != 0
   | .pyint n => n != 0
   | .sum _ [x] => truthy x
   | .prod _ xs => truthyAll xs
+  | .quot _ a _ => truthy a
   | _ => true
 def truthyAll : List E → Bool
   | [] => true
@@ -156,16 +156,14 @@ def sumLiterals : E → E
 
 /-! ## `separate_coefficients`, `mul_literals` -/
 
-/-- inner `_process` of `separate_coefficients` -/
+/-- inner `_process` of `separate_coefficients` (after the `fix:` commit: recursion on `strip_minus_prefix(child)`;
+before it only `child.children[1]` was looked at and further factors were dropped) -/
 def procP : Nat → E → Option (Int × Option E)
   | _, .pyint k => some (k, none)
   | _, .ilit v => some (v, none)
   | 0, _ => none
   | f + 1, child =>
-    if isMinusPrefix child then
-      match child with
-      | .prod _ [_, c1] => (procP f c1).map fun r => (-r.1, r.2)
-      | _ => none      -- `children[1]` missing (IndexError) or further factors silently dropped: not modelled
+    if isMinusPrefix child then (procP f (stripMinus child)).map fun r => (-r.1, r.2)
     else some (1, some child)
 
 def iprod : List Int → Int
